@@ -196,3 +196,17 @@ func (c *Chain) bestCandidate() *Node {
 	})
 	return cands[0]
 }
+
+// UtxoAt recomputes, by replay from genesis, the UTXO set after the block with the given hash.
+// ok=false when the block is unknown or its chain does not validate.
+func (c *Chain) UtxoAt(h Hash) (UTXO, bool) {
+	n, ok := c.Nodes[h]
+	if !ok {
+		return nil, false
+	}
+	u, bad, _ := c.replay(n)
+	if bad != nil {
+		return nil, false
+	}
+	return u, true
+}
